@@ -577,6 +577,13 @@ func (v *VC) evCall(x SCall, env *SpecEnv) TV {
 		a := v.ev(x.Args[0], env)
 		v.useBytesOf()
 		return TV{T: "(bytes.str " + a.T + ")", Typ: tString}
+	case "box":
+		// box(x): the interface value holding struct value x (what an implicit conversion builds)
+		a := v.ev(x.Args[0], env)
+		if a.Typ == nil {
+			specPanic("box needs a typed struct value")
+		}
+		return TV{T: v.makeIface(a.Typ, a.T), Sort: "Iface"}
 	case "ifaceptr":
 		a := v.ev(x.Args[0], env)
 		return TV{T: "(iface-ptr " + a.T + ")", Sort: "Ptr"}
@@ -753,6 +760,12 @@ func (v *VC) evMethod(x SMethod, env *SpecEnv) TV {
 // lookupGoType resolves "T" or "pkg.T" (optionally with a leading *) in the scope of fn's package.
 func (v *VC) lookupGoType(fn *ssa.Function, name string) types.Type {
 	if fn == nil || fn.Pkg == nil {
+		return nil
+	}
+	if strings.HasPrefix(name, "[]") {
+		if et := v.lookupGoType(fn, name[2:]); et != nil {
+			return types.NewSlice(et)
+		}
 		return nil
 	}
 	star := strings.HasPrefix(name, "*")
